@@ -53,6 +53,8 @@ func zzBuildCER(kmax int, variant int) (m *diam.Message, oh, or bool, inbandPres
 	m = diam.NewRequest(diam.CapabilitiesExchange, 0, dict.Default)
 	m.Header.HopByHopID = vU32("hbh")
 	m.Header.EndToEndID = vU32("e2e")
+	// the proxiable, error and retransmit bits of the request are the peer's choice
+	m.Header.CommandFlags = diam.RequestFlag | vU8("cerflags")&0x70
 	oh, or = true, true
 	if variant == 1 {
 		// identity presence combinations (the application list is then limited to one AVP)
@@ -167,6 +169,7 @@ func zzC11_cer() {
 	vAssert(cea.Header.CommandCode == diam.CapabilitiesExchange && cea.Header.CommandFlags&diam.RequestFlag == 0 && cea.Header.ApplicationID == 0, "answer to the capabilities exchange")
 	vAssert(cea.Header.HopByHopID == m.Header.HopByHopID && cea.Header.EndToEndID == m.Header.EndToEndID, "CEA carries the request's hop-by-hop and end-to-end identifiers")
 	vAssert(cea.Header.CommandFlags&diam.ProxiableFlag == m.Header.CommandFlags&diam.ProxiableFlag, "proxiable bit unchanged")
+	vAssert(cea.Header.CommandFlags&diam.RetransmittedFlag == m.Header.CommandFlags&diam.RetransmittedFlag, "retransmit bit unchanged")
 	rc, ok := zzU32AVP(cea, avp.ResultCode)
 	vAssert(ok, "CEA carries a Result-Code")
 	if vParam("ONLY_MIRROR", 0) == 1 {
